@@ -272,7 +272,13 @@ int rtosc_arg_vals_cmp_single(const rtosc_arg_val_t* _lhs,
             if(     rtosc_av_arr_type(_lhs) != rtosc_av_arr_type(_rhs)
                && !(rtosc_av_arr_type(_lhs) == 'T' && rtosc_av_arr_type(_rhs) == 'F')
                && !(rtosc_av_arr_type(_lhs) == 'F' && rtosc_av_arr_type(_rhs) == 'T'))
-                rval = (rtosc_av_arr_type(_lhs) > rtosc_av_arr_type(_rhs)) ? 1 : -1;
+            {
+                // 'T' and 'F' arrays are compared by their elements, so they
+                // must take the same place among the other array types
+                char ltype = rtosc_av_arr_type(_lhs) == 'T' ? 'F' : rtosc_av_arr_type(_lhs),
+                     rtype = rtosc_av_arr_type(_rhs) == 'T' ? 'F' : rtosc_av_arr_type(_rhs);
+                rval = (ltype > rtype) ? 1 : -1;
+            }
             else
             {
                 // the arg vals differ in this array => compare and return
